@@ -220,7 +220,8 @@ class Concretiser:
             s = "20%02d-%02d-%02dT%02d:%02d:%02d.%03dZ" % (rng.randint(10, 39), rng.randint(1, 12), rng.randint(1, 28),
                                                             rng.randint(0, 23), rng.randint(0, 59), rng.randint(0, 59), idn % 1000)
             if v and rng.random() < 0.3:
-                s = s[:-1] + "+00:00"
+                # other ISO-8601 spellings of the offset (extended and basic form)
+                s = s[:-1] + ("+00:00", "+0100", "-03:30", "+0000", "-0800")[idn % 5]
             if v and getattr(self, "clash", False) and rng.random() < 0.15:
                 s = rng.choice(CLASH["date"])
             node, tok = ('str', s), s
@@ -394,7 +395,7 @@ class Concretiser:
 
 
 # ------------------------------------------------------------------ running the real code
-def run_batch(b, lines, cfg, workdir, keyfile=None):
+def run_batch(b, lines, cfg, workdir, keyfile=None, cwd=None):
     """lines: list of text lines. Returns (returncode, stdout_or_outfile_text, stderr)."""
     inp = os.path.join(workdir, "in-%s.log" % cfg.name)
     with open(inp, "w", encoding="utf-8") as f:
@@ -404,7 +405,7 @@ def run_batch(b, lines, cfg, workdir, keyfile=None):
     if cfg.encrypt:
         outp = os.path.join(workdir, "out-%s.log" % cfg.name)
         args += ["-o", outp, "--encrypt", "-q", keyfile]
-        p = common.run_cli(b, args)
+        p = common.run_cli(b, args, cwd=cwd)
         text = ""
         if os.path.exists(outp):
             with open(outp, encoding="utf-8", errors="replace") as f:
@@ -412,7 +413,7 @@ def run_batch(b, lines, cfg, workdir, keyfile=None):
             os.remove(outp)
         os.remove(inp)
         return p.returncode, text, p.stderr.decode("utf-8", "replace")
-    p = common.run_cli(b, args)
+    p = common.run_cli(b, args, cwd=cwd)
     os.remove(inp)
     return p.returncode, p.stdout.decode("utf-8", "replace"), p.stderr.decode("utf-8", "replace")
 
@@ -453,18 +454,18 @@ def collect(lines_out):
 
 STRICT_PARSE = True
 
-def run_with_bisect(b, lines, ids, cfg, workdir, keyfile, crashed, depth=0):
+def run_with_bisect(b, lines, ids, cfg, workdir, keyfile, crashed, depth=0, cwd=None):
     """Runs a batch; when the process dies (exit status other than 0) the batch is bisected down to the lines
     that kill it (recorded in `crashed` with exit status and stderr) and the rest is re-run."""
-    rc, out, err = run_batch(b, lines, cfg, workdir, keyfile)
+    rc, out, err = run_batch(b, lines, cfg, workdir, keyfile, cwd)
     if rc == 0:
         return collect(out)
     if len(lines) == 1:
         crashed[ids[0]] = {"exit": rc, "stderr": err[-1500:], "line": lines[0][:4000]}
         return {}, []
     mid = len(lines) // 2
-    g1, s1 = run_with_bisect(b, lines[:mid], ids[:mid], cfg, workdir, keyfile, crashed, depth + 1)
-    g2, s2 = run_with_bisect(b, lines[mid:], ids[mid:], cfg, workdir, keyfile, crashed, depth + 1)
+    g1, s1 = run_with_bisect(b, lines[:mid], ids[:mid], cfg, workdir, keyfile, crashed, depth + 1, cwd)
+    g2, s2 = run_with_bisect(b, lines[mid:], ids[mid:], cfg, workdir, keyfile, crashed, depth + 1, cwd)
     g1.update(g2)
     return g1, s1 + s2
 
